@@ -240,72 +240,47 @@ Proof.
   apply (compress_lookup N cid_add cid_link cid_vals cid_mk (kept_cid f es) c K1 K2).
 Qed.
 
-Lemma setmapping_lookup_bytes_lemma csr f es c :
-  NoDup (map fst es) -> wf_entries N es -> cid_ok es ->
-  lookup_cid (set_mapping_bytes csr f es) c =
-  match assoc es c with
-  | Some v => v
-  | None => match c_parent f with
-            | Some p => lookup_cid p c
-            | None => lookup_notdef f c
-            end
-  end.
-Proof.
-  intros Hnd Hwf Hok.
-  pose proof (own_lookup_cid f es c Hnd Hwf Hok) as H. cbn zeta in H.
-  assert (E : lookup_cid (set_mapping_bytes csr f es) c =
-              match assoc (kept_cid f es) c with
-              | Some v => v
-              | None => match c_parent f with
-                        | Some p => lookup_cid p c
-                        | None => lookup_notdef f c
-                        end
-              end).
-  { unfold set_mapping_bytes in *. fold (kept_cid f es) in *. cbn [c_singles c_ranges] in H.
-    cbn [lookup_cid c_singles c_ranges].
-    destruct (find_single (fst (compress cid_link cid_vals (kept_cid f es))) c) as [v|] eqn:E1.
-    - rewrite <- H. reflexivity.
-    - destruct (find_crange (map to_crange (snd (compress cid_link cid_vals (kept_cid f es)))) c) as [v|] eqn:E2.
-      + rewrite <- H. reflexivity.
-      + rewrite <- H. destruct (c_parent f) eqn:Ep; [reflexivity|].
-        rewrite <- Ep. apply lookup_notdef_same. }
-  rewrite E. unfold kept_cid. destruct (c_parent f) as [p|] eqn:Ep; [|reflexivity].
-  rewrite assoc_filter by assumption. destruct (assoc es c) as [v|] eqn:Ea; [|reflexivity].
-  cbn [fst snd]. destruct (lookup_cid p c =? v) eqn:E3; cbn [negb]; [|reflexivity].
-  apply N.eqb_eq in E3. assumption.
-Qed.
-
-(* option-valued lookup through the chain (before the notdef fallback), and the root *)
-Fixpoint lookup_cid_opt (f : cfile) (c : bytes) : option N :=
-  let 'CFile _ ss rr _ _ par := f in
-  match find_single ss c with
-  | Some v => Some v
-  | None =>
-      match find_crange rr c with
-      | Some v => Some v
-      | None => match par with
-                | Some p => lookup_cid_opt p c
-                | None => None
-                end
-      end
-  end.
-
 Fixpoint c_root (f : cfile) : cfile :=
   match f with
   | CFile _ _ _ _ _ (Some p) => c_root p
   | _ => f
   end.
 
-Lemma lookup_cid_split : forall f c,
-  lookup_cid f c = match lookup_cid_opt f c with
-                   | Some v => v
-                   | None => lookup_notdef (c_root f) c
-                   end.
+(* the pre-F31 LookupCID answered an unmapped code with the notdef entries of the LAST file of the chain *)
+Lemma lookup_cid_prefix_split : forall f c,
+  lookup_cid_prefix f c = match lookup_cid_opt f c with
+                          | Some v => v
+                          | None => lookup_notdef (c_root f) c
+                          end.
 Proof.
   fix IH 1. intros [csr ss rr nds ndr par] c.
-  cbn [lookup_cid lookup_cid_opt c_singles c_ranges c_root].
+  cbn [lookup_cid_prefix lookup_cid_opt c_singles c_ranges c_root].
   destruct (find_single ss c); [reflexivity|]. destruct (find_crange rr c); [reflexivity|].
   destruct par as [p|]; [apply IH|reflexivity].
+Qed.
+
+(* what the parent chain maps (before any notdef fallback) *)
+Definition parent_opt (f : cfile) (c : bytes) : option N :=
+  match c_parent f with
+  | Some p => lookup_cid_opt p c
+  | None => None
+  end.
+
+(* SetMapping leaves out an entry c -> v when Parent.LookupCID(c) = v.  If the parent chain does not map c,
+   that answer came from the PARENT's notdef entries; the new file then answers c with ITS OWN notdef
+   entries first.  The omission is safe when those agree: *)
+Definition omit_safe (f : cfile) (es : list (bytes * N)) : Prop :=
+  forall p, c_parent f = Some p ->
+  forall c v, In (c, v) es -> lookup_cid_opt p c = None -> lookup_notdef p c = v -> lookup_notdef f c = v.
+
+Lemma omit_safe_no_parent f es : c_parent f = None -> omit_safe f es.
+Proof. intros H p Hp. congruence. Qed.
+
+Lemma omit_safe_no_own_notdef f es :
+  c_nd_singles f = [] -> c_nd_ranges f = [] -> omit_safe f es.
+Proof.
+  intros H1 H2 p Hp c v _ _ Hv. destruct f as [csr ss rr nds ndr par]. cbn in H1, H2, Hp. subst.
+  reflexivity.
 Qed.
 
 Definition agree_cid (f : cfile) : Prop :=
@@ -349,17 +324,74 @@ Proof.
   destruct (find_single _ c); [reflexivity|]. destruct (find_crange _ c); reflexivity.
 Qed.
 
+Lemma lookup_cid_opt_set_mapping_kept csr f es c :
+  NoDup (map fst es) -> wf_entries N es -> cid_ok es ->
+  lookup_cid_opt (set_mapping_bytes csr f es) c =
+  match assoc (kept_cid f es) c with
+  | Some v => Some v
+  | None => parent_opt f c
+  end.
+Proof.
+  intros Hnd Hwf Hok. rewrite lookup_cid_opt_set_mapping.
+  pose proof (own_lookup_cid f es c Hnd Hwf Hok) as HL. cbn zeta in HL.
+  destruct (set_mapping_csr_irrelevant csr (c_csr f) f es) as (E1 & E2 & _). cbn zeta in E1, E2.
+  rewrite E1, E2, HL. reflexivity.
+Qed.
+
+Lemma setmapping_lookup_bytes_lemma csr f es c :
+  NoDup (map fst es) -> wf_entries N es -> cid_ok es -> omit_safe f es ->
+  lookup_cid (set_mapping_bytes csr f es) c =
+  match assoc es c with
+  | Some v => v
+  | None => match parent_opt f c with
+            | Some v => v
+            | None => lookup_notdef f c
+            end
+  end.
+Proof.
+  intros Hnd Hwf Hok Hsafe. unfold lookup_cid.
+  rewrite lookup_cid_opt_set_mapping_kept by assumption.
+  assert (End : lookup_notdef (set_mapping_bytes csr f es) c = lookup_notdef f c)
+    by (unfold set_mapping_bytes; apply lookup_notdef_same).
+  rewrite End. unfold kept_cid, parent_opt in *. destruct (c_parent f) as [p|] eqn:Ep.
+  - rewrite assoc_filter by assumption. destruct (assoc es c) as [v|] eqn:Ea; [|reflexivity].
+    cbn [fst snd]. destruct (lookup_cid p c =? v) eqn:E3; cbn [negb]; [|reflexivity].
+    apply N.eqb_eq in E3. unfold lookup_cid in E3.
+    destruct (lookup_cid_opt p c) as [w|] eqn:Eo; [assumption|].
+    apply (Hsafe p Ep c v); auto. apply assoc_in. assumption.
+  - destruct (assoc es c); reflexivity.
+Qed.
+
+(* without the side condition only the mapped-or-chain part survives: the entry may be shadowed *)
+Lemma setmapping_lookup_bytes_weak csr f es c :
+  NoDup (map fst es) -> wf_entries N es -> cid_ok es ->
+  lookup_cid_opt (set_mapping_bytes csr f es) c =
+  match assoc es c with
+  | Some v => match c_parent f with
+              | Some p => if lookup_cid p c =? v then lookup_cid_opt p c else Some v
+              | None => Some v
+              end
+  | None => parent_opt f c
+  end.
+Proof.
+  intros Hnd Hwf Hok. rewrite lookup_cid_opt_set_mapping_kept by assumption.
+  unfold kept_cid, parent_opt. destruct (c_parent f) as [p|] eqn:Ep.
+  - rewrite assoc_filter by assumption. destruct (assoc es c) as [v|]; [|reflexivity].
+    cbn [fst snd]. destruct (lookup_cid p c =? v); reflexivity.
+  - destruct (assoc es c); reflexivity.
+Qed.
+
 Lemma agree_set_mapping csr f es :
   NoDup (map fst es) -> wf_entries N es -> cid_ok es ->
   (forall p, c_parent f = Some p -> agree_cid p) ->
   agree_cid (set_mapping_bytes csr f es).
 Proof.
   intros Hnd Hwf Hok Hp c.
-  rewrite raw_all_set_mapping, assoc_last_app, lookup_cid_opt_set_mapping.
-  pose proof (own_lookup_cid f es c Hnd Hwf Hok) as HL. cbn zeta in HL.
+  rewrite lookup_cid_opt_set_mapping_kept by assumption.
+  rewrite raw_all_set_mapping, assoc_last_app.
   pose proof (own_raw_cid f es Hnd Hwf Hok) as HP. cbn zeta in HP.
   destruct (set_mapping_csr_irrelevant csr (c_csr f) f es) as (E1 & E2 & _). cbn zeta in E1, E2.
-  rewrite E1, E2, HL.
+  rewrite E1, E2.
   destruct (kept_cid_ok f es Hnd Hwf Hok) as (K1 & K2 & K3).
   assert (Hnd2 : NoDup (map fst (flat_map crange_entries (c_ranges (set_mapping_bytes (c_csr f) f es)) ++
                                  c_singles (set_mapping_bytes (c_csr f) f es)))).
@@ -367,7 +399,7 @@ Proof.
   rewrite assoc_last_nodup by assumption.
   rewrite (assoc_perm N _ _ c Hnd2 HP).
   destruct (assoc (kept_cid f es) c); [reflexivity|].
-  destruct (c_parent f) as [p|] eqn:Ep; [apply Hp; reflexivity|reflexivity].
+  unfold parent_opt. destruct (c_parent f) as [p|] eqn:Ep; [apply Hp; reflexivity|reflexivity].
 Qed.
 
 Lemma all_cid_no_parent csr f es :
